@@ -77,6 +77,15 @@ Definition prop_ok (c : case) : bool :=
   | Bin _ _ _ _ _ _ _ _ => true
   end.
 
+(* C14 is symmetric in the representations: every run must have the SAME outcome as the
+   contiguous run, including when that run fails (an error or a panic on the contiguous
+   layout only is a layout dependence too) *)
+Definition layout_ok (c : case) : bool :=
+  match c with
+  | Diff _ _ base alts => forallb (fun a => outcome_eqb (snd a) base) alts
+  | _ => true
+  end.
+
 (* names of the alternatives that differ from the reference run + the model's answer *)
 Definition show (c : case) : list string * option (bres Z) :=
   match c with
